@@ -49,7 +49,7 @@ class Stats:
 
 
 # ------------------------------------------------------------------------------ helpers
-BUILD_CMDS = {"leaf", "doomed", "joinid", "apply", "join", "joinon", "joinp", "chain", "mat", "transfer", "process",
+BUILD_CMDS = {"leaf", "doomed", "joinid", "apply", "join", "joinon", "joinp", "joinmax", "chain", "mat", "transfer", "process",
               "unwrap", "rawu", "rawchain", "rawjoin", "conform"}
 
 
